@@ -303,7 +303,11 @@ func checkWith(c Case, tolerateInjected bool) (stats []qstat, sig string, err er
 				if rep == 0 {
 					st.requests++
 				}
-				if err := checkSubQuery(c, r.service, "Query", r.query.SelectionSet); err != nil {
+				rootT := "Query"
+				if r.query.Kind == "mutation" {
+					rootT = "Mutation"
+				}
+				if err := checkSubQuery(c, r.service, rootT, r.query.SelectionSet); err != nil {
 					return nil, "subquery-leak", fmt.Errorf("%v\nquery:\n%s", err, text)
 				}
 			}
@@ -318,7 +322,7 @@ func genModes(t *rapid.T, s *world.Spec) world.Modes {
 	for _, o := range s.Objects {
 		for _, f := range o.Fields {
 			kinds := []string{"plain", "plain", "expensive", "batch"}
-			if o.Type == "Query" {
+			if o.Type == "Query" || o.Type == "Mutation" {
 				kinds = []string{"plain", "expensive"}
 			}
 			m[o.Type+"."+f.Name] = world.Mode{Kind: rapid.SampledFrom(kinds).Draw(t, "mode"), Ctx: true, K: -100}
@@ -332,7 +336,9 @@ func genCase(t *rapid.T, dirs bool) (Case, []world.Features) {
 	c := Case{Spec: s, Partition: world.GenPartition(t, s), Modes: genModes(t, s)}
 	var feats []world.Features
 	for i := 0; i < 4; i++ {
-		q, f := world.GenQuery(t, s, world.GenOpts{MaxDepth: 4, Directives: dirs, UnionTypenameAlways: rapid.Bool().Draw(t, "utn"), UncoveredUnion: rapid.Bool().Draw(t, "uncov"), FragOnUnion: rapid.Bool().Draw(t, "fragonunion")})
+		// one query in four is a mutation: its root field runs on one service, the fields of the
+		// object it returns may live on others
+		q, f := world.GenQuery(t, s, world.GenOpts{MaxDepth: 4, Directives: dirs, Mutation: rapid.IntRange(0, 3).Draw(t, "mutation") == 0, UnionTypenameAlways: rapid.Bool().Draw(t, "utn"), UncoveredUnion: rapid.Bool().Draw(t, "uncov"), FragOnUnion: rapid.Bool().Draw(t, "fragonunion")})
 		c.Queries = append(c.Queries, q)
 		c.Texts = append(c.Texts, q.Text())
 		feats = append(feats, f)
@@ -353,7 +359,7 @@ func run(t interface{ Fatalf(string, ...interface{}) }, test string, c Case, fea
 		if i < len(feats) {
 			f = feats[i]
 		}
-		cls := map[string]bool{">=2services": len(st.services) >= 2, "merged-alias": f.MergedAlias > 0, "union": f.UnionFields > 0, ">=3subqueries": st.requests >= 3, "spread-twice": f.SpreadTwice > 0, "directives": f.Directives > 0}
+		cls := map[string]bool{">=2services": len(st.services) >= 2, "merged-alias": f.MergedAlias > 0, "union": f.UnionFields > 0, ">=3subqueries": st.requests >= 3, "spread-twice": f.SpreadTwice > 0, "directives": f.Directives > 0, "mutation": i < len(c.Queries) && c.Queries[i].Kind == "mutation"}
 		var labels []string
 		for k, v := range cls {
 			if v {
